@@ -41,7 +41,48 @@ def call_pred(name, nargs=None):
     return p
 
 
+
+def complex_exit_sense(db, cx):
+    """C03.8 (seeded change c03f): in SimpleUnitTracker::complex_intersect the sense reported with
+    the exiting surface is the sense *just before that crossing* - taken from the loop's running
+    sense table (which has already flipped the surfaces crossed earlier on the same ray, possibly
+    the same surface) - and not the sense at the track's current position."""
+    fs = db.get(C + "SimpleUnitTracker::complex_intersect")
+    cx.require(fs, "anchor SimpleUnitTracker::complex_intersect not found")
+    f = fs[0]
+    ws = [(b, i, e) for (b, i, e) in f.events("write")
+          if (e.get("path") or {}).get("chain", [None])[-1:] == ["f:" + C + "detail::Intersection::surface"]
+          or (e.get("lhs") or "").endswith(".surface")]
+    cx.require(ws, "complex_intersect no longer sets the surface of its result")
+    SENSES = "F:" + C + "detail::SenseCalculator::result_type::senses"
+    for (b, i, e) in ws:
+        # collect, through local definitions, what the written value depends on
+        seen, work = set(), list(local_refs(e.get("refs", [])))
+        refs, calls = set(e.get("refs", [])), set(e.get("calls", []))
+        while work:
+            v = work.pop()
+            if v in seen:
+                continue
+            seen.add(v)
+            for (_b2, _i2, d) in f.reaching_defs(v, (b, i)):
+                if d["e"] != "def":
+                    continue
+                refs |= set(d.get("refs", []))
+                calls |= set(d.get("calls", []))
+                work.extend(local_refs(d.get("refs", [])))
+        from_table = SENSES in refs
+        recomputed = any(c.endswith("CalcSense::CalcSense") or c.endswith("::current_sense") or
+                         c.endswith("LocalSurfaceVisitor::operator()") for c in calls)
+        cx.ob("C03.8-complex-exit-sense", "complex_intersect reports the running sense of the exiting face @%s"
+              % short(e["loc"]).split(":", 1)[1], from_table and not recomputed,
+              "depends on the loop's sense table: %s; recomputed at the current position: %s" % (from_table, recomputed),
+              short(e["loc"]),
+              why="when the exiting crossing is the second hit of a surface already crossed inside the "
+                  "volume, the sense at the start position is the wrong side: cross_boundary finds no "
+                  "neighbour and the track is lost")
+
 def run(db, cx):
+    complex_exit_sense(db, cx)
     acc = accessor_summary(db)
     follow_geo = lambda n: n.startswith(OTV) or n.startswith(D + "LevelStateAccessor::")
 
